@@ -782,6 +782,27 @@ fn derive() {
     }
 }
 
+/// stdin lines "hexbytes": decode as a G1 point; print "None", "inf" or the affine coordinates "x y" (hex).
+fn g1xy() {
+    use ark_ff::BigInteger;
+    for line in std::io::stdin().lock().lines() {
+        let line = line.unwrap();
+        let b = unhex(line.trim());
+        let res = guarded(|| from_bytes::<G1, _>(&mut Cursor::new(b.clone())));
+        match res {
+            Ok(Ok(p)) => {
+                let a = p.into_ark().into_affine();
+                match a.xy() {
+                    None => println!("inf"),
+                    Some((x, y)) => println!("{} {}", hex(&x.into_bigint().to_bytes_be()), hex(&y.into_bigint().to_bytes_be())),
+                }
+            }
+            Ok(Err(_)) => println!("None"),
+            Err(_) => println!("PANIC"),
+        }
+    }
+}
+
 fn main() {
     quiet_panics();
     let args: Vec<String> = std::env::args().collect();
@@ -798,6 +819,7 @@ fn main() {
         "derive" => derive(),
         "one" => one(),
         "decode" => decode(),
+        "g1xy" => g1xy(),
         _ => { eprintln!("usage: c20 mexp|wnaf|enc|shamir|kd <seed> <n> | dlog | derive"); std::process::exit(2) }
     }
 }
